@@ -293,15 +293,10 @@ func obsSeen() float64 {
 // broadcastSignature loops back from a goroutine of its own: first a barrier (the event's handler has returned), then as many
 // further observations entering handleObservation as signed observations were broadcast, then a barrier again (their
 // handlers have returned). Outputs drained on the way are kept in w.held.
-func (w *pworld) settle(before float64, local bool) bool {
-	if !w.barrier() {
-		return false
-	}
-	if local {
-		w.held = w.drain(false)
-		n := float64(strings.Count(w.held, "O:"))
+func (w *pworld) settle(before float64, op string, local bool) bool {
+	waitSeen := func(target float64) bool {
 		deadline := time.Now().Add(20 * time.Second)
-		for obsSeen() < before+n {
+		for obsSeen() < target {
 			if time.Now().After(deadline) {
 				w.deadMsg = "own observation not looped back"
 				return false
@@ -313,6 +308,26 @@ func (w *pworld) settle(before float64, local bool) bool {
 			default:
 			}
 			time.Sleep(20 * time.Microsecond)
+		}
+		return true
+	}
+	if op == "obs" {
+		// the observation went into the (buffered) observation channel: wait until Run has taken it into handleObservation,
+		// the barrier after that is taken only once that handler has returned
+		if !waitSeen(before + 1) {
+			w.deadMsg = "observation not taken by Run"
+			return false
+		}
+		return w.barrier()
+	}
+	if !w.barrier() {
+		return false
+	}
+	if local {
+		w.held = w.drain(false)
+		n := float64(strings.Count(w.held, "O:"))
+		if !waitSeen(before + n) {
+			return false
 		}
 	}
 	return w.barrier()
@@ -341,7 +356,7 @@ func (w *pworld) liveOp(op, fields string, send func(giveUp <-chan time.Time) bo
 	w.dist[op+"-live"]++
 	w.held = ""
 	before := obsSeen()
-	if !w.liveSend(send) || !w.settle(before, local) {
+	if !w.liveSend(send) || !w.settle(before, op, local) {
 		return w.panicLine(op, fields)
 	}
 	out := w.drain(false)
@@ -503,7 +518,8 @@ func (w *pworld) drain(expectLoop bool) string {
 			}
 		}
 	}
-	for {
+	// (live mode: the observation channel belongs to Run - whatever is in it is on its way into handleObservation)
+	for !w.live {
 		select {
 		case o := <-w.obsvC:
 			outs = append(outs, fmt.Sprintf("L:%s:%s:%s:%s", phex(o.Addr), phex(o.Hash), phex(o.Signature), phex(o.TxHash)))
